@@ -1,5 +1,6 @@
 """C05 - task ids stay unique inside every WBS and tree; lookup by id is exact; WBS.tasks is the preorder.
 Search: wf_ids_b on the snapshot after every call; WBS.tasks of every WBS equals the preorder of the snapshot;
+the observed WBS.tasks holds no task twice;
 wbs[id] for every id in use and one unused id equals the model's lookup on the snapshot (the one member with
 that id / RuntimeError).  Tie: outcome class incl. the exception type, ids, tree membership."""
 from harness.props import graph_common as gc
@@ -18,7 +19,32 @@ SPEC = gc.Spec(
 
 
 def run(ctx):
-    gc.run_property(ctx, SPEC)
+    hists, _ = gc.run_property(ctx, SPEC)
+    # "WBS.tasks lists every member exactly once": the comparison with the preorder of the snapshot does not see a
+    # task that the snapshot itself lists twice (the same object twice in one children list), so the observed
+    # enumeration is also required to be free of repetitions
+    shown = {}
+    for h in hists:
+        pre = gc.EMPTY
+        for ix, st in enumerate(h['steps']):
+            for wi, l in enumerate((st.get('reads') or {}).get('tasks', [])):
+                if len(set(l)) != len(l):
+                    k = st['op'][0]
+                    shown[k] = shown.get(k, 0) + 1
+                    if shown[k] <= 2:
+                        origin = ('corpus: ' + h['corpus']) if 'corpus' in h else 'generated history, seed %s' % h.get('seed')
+                        ctx.failure('C05/%s/task-listed-twice' % k,
+                                    'C05/%s/task-listed-twice: WBS.tasks of WBS %d lists a task more than once (%r) after %s (%s)'
+                                    % (k, wi, l, gc.describe_call(st), origin),
+                                    {'kind': 'ops', 'items': gc.items_of(h, ix), 'origin': origin, 'call_index': ix, 'op': st['op'],
+                                     'how': st['how'], 'pre': pre, 'observed': {'reads': st['reads'], 'post': st['post']}})
+                    break
+            else:
+                pre = st['post']
+                continue
+            break          # the state is ill-formed from here on
+    if shown:
+        ctx.coverage.setdefault('distribution', {})['tasks_listed_twice_by_call_site'] = shown
 
 
 def replay(ctx, rep):
